@@ -77,6 +77,15 @@ CLAIMED = {
                   "their contracts; units.is_atomic / scalable through their C09 contracts. check_data_array, check_tag, "
                   "check_multi_tag, check_feature and the check_file traversal (polymorphic containers) are NOT under contract.",
              ref="7 C14"),
+ "C16": dict(text="Partial (refusal / addressing logic only, prefix verification): deductive proof for write_column, append_column, "
+                  "write_rows, write_cell and read_cell that every call violating a stated condition (column length != row count, "
+                  "neither index nor name given - index 0 being a legal index -, malformed cell address, row count / index count "
+                  "mismatch, row index beyond the last row) is refused with the stated error BEFORE the first write, and that these "
+                  "errors are raised only under those conditions. Cell-level fidelity, column typing and persistence are NumPy "
+                  "structured-array / h5py compound-type behaviour and are assumed.",
+             note="Prefix mode: each function is executed symbolically up to its first statement outside the modelled subset (raw "
+                  "h5py / structured arrays); nothing is claimed about the code after that point. create_data_frame's schema "
+                  "derivation is not under contract.", ref="7 C16"),
 }
 NA_REASON = "check not built yet in this round (design in DESIGN.md section 7); will be claimed once its contracts discharge"
 checks, na = [], []
